@@ -1,5 +1,5 @@
 -- GENERATED from /repo by /verif/extract/extract.py on every run. Do not edit.
 import RjModel.Model.Channel
 namespace Rj.Generated
-def channelFeatures : ChanFeatures := ⟨true, true, true, true, true, true, true, true, false⟩
+def channelFeatures : ChanFeatures := ⟨true, true, true, true, true, true, true, true, true⟩
 end Rj.Generated
